@@ -68,7 +68,11 @@ impl Worker {
 
                     println!("Worker {} got a job; executing.", id);
 
-                    job();
+                    // a panicking job must not take its worker thread with it
+                    let boxed_result = std::panic::catch_unwind(std::panic::AssertUnwindSafe(job));
+                    if boxed_result.is_err() {
+                        eprintln!("Worker {} -> job panicked, worker keeps running", id);
+                    }
                 }
 
             }
